@@ -100,6 +100,32 @@ CHECKS['C07'] = dict(
     design='5/C07',
 )
 
+CHECKS['C09'] = dict(
+    level='exploration',
+    text=("Bounded-exhaustive against truth tables: every formula with <=4/5 leaves over {phi0,phi1,phi2,bot,->}, every "
+          "formula of <=2/3 connectives over the notations ~,/\\,\\/,<->,T, every ordered list of <=3/4 clauses over 3 "
+          "variables (every order; plus literal sequences with repetition, plus 4 variables) through prove_tautology / "
+          "start_resolution_algorithm / resolution_algorithm; each normal-form stage (to_conj_form, propag_neg, to_cnf, "
+          "to_clauses) checked for shape, truth-table equivalence and the conclusions of both returned proofs; returned "
+          "proofs replayed on a StatefulInterpreter and a stride serialised and run through the real checker."),
+    note='Trusted: truth tables. Replays through the optimiser are limited to proofs under 2.5 kB (C02 covers the optimiser).',
+    technique='bounded-exhaustive enumeration of formulas and clause orderings against a truth-table oracle',
+    design='5/C09',
+)
+CHECKS['C10'] = dict(
+    level='exploration',
+    text=("The advertised schema of each of the 87 schema-shaped entry points is read from its live docstring; the "
+          "letter-to-parameter correspondence is found by search at a generic point (a docstring matching no correspondence is "
+          "a violation). Then every argument tuple from a pool of 6/9 patterns (binders, applications, pending substitution, "
+          "notation, constrained metavariable) is run: conclusion equals the schema instance, the proof replays on an "
+          "auditing interpreter using only prop1-3/MP/instantiate/loads of declared axioms and on a StatefulInterpreter, a "
+          "stride is accepted by the real checker; plus every (producer, consumer, premise slot) composition whose shapes match."),
+    note=("Entry points that are not schema-shaped (prover stages, resolution helpers, *_match*, *_move_to_front) are covered by "
+          "C09 and listed in the evidence. Hand table for 5 entries without a formula docstring."),
+    technique='bounded-exhaustive enumeration of entry points x argument tuples against schemas parsed from the live docstrings',
+    design='5/C10',
+)
+
 NOT_YET = {
 }
 
